@@ -53,3 +53,10 @@ func VerifC19CheckHardfork(cs *ChainService, c *config.HardforkConfig) error {
 func VerifC19DbHardfork(cs *ChainService, c config.HardforkConfig) config.HardforkDbConfig {
 	return cs.cdb.Hardfork(c)
 }
+
+// VerifC19VerifyState reads the block validator's sign-verification bookkeeping: whether a started verification has
+// not been waited for and how many results sit in the result channel. The harness uses it only to wait until the
+// verifier goroutines are idle before it stops a node (stopping closes their channels).
+func VerifC19VerifyState(cs *ChainService) (needWait bool, pending int) {
+	return cs.validator.isNeedWait, len(cs.validator.signVerifier.resultCh)
+}
